@@ -324,3 +324,34 @@ def _ref_defs(b, op):
             if k == "assign" and pay["rv"]["k"] == "ref":
                 out.append(pay)
     return out
+
+
+@rule("C07", "R6", "a node reads its own catalog writes: every object-store catalog mutation (register, delete, compaction swap) replaces or clears the cached catalog copy before it reports "
+      "success - the lookups answer from that copy for up to its time-to-live, so a skipped refresh hides a registered chunk (or keeps a deleted one) on the node that wrote it")
+def r6(cx):
+    targets = [(S3 + "atomic_register_chunk", S3 + "atomic_register_chunk"), (S3T + "delete_chunk", S3T + "delete_chunk"), (S3T + "complete_compaction", S3T + "complete_compaction")]
+    for fk, label in targets:
+        ck = cx.prog.code_key(fk)
+        b = cx.body(ck)
+        if b is None:
+            cx.violation(label, "anchor-missing", "body not found", [])
+            continue
+        writes = []
+        for bi, t in b.calls():
+            if t["callee"].endswith("DerefMut::deref_mut") and t["args"] and t["args"][0].get("k") in ("move", "copy"):
+                o = M.provenance(b, t["args"][0]["pl"], at=(bi, M.T), adapters=frozenset())
+                tys = {b.locals[l]["ty"] for l in range(len(b.locals)) if "RwLockWriteGuard" in b.locals[l]["ty"] and "MetadataCatalog" in b.locals[l]["ty"]}
+                rl = t["args"][0]["pl"]["l"]
+                # receiver is (a reborrow of) a write guard of the catalog cache
+                src = [pay for (dbi, dsi, k, pay) in b.defs().get(rl, []) if k == "assign" and pay["rv"]["k"] == "ref"]
+                if any("RwLockWriteGuard" in b.locals[p["rv"]["pl"]["l"]]["ty"] and "MetadataCatalog" in b.locals[p["rv"]["pl"]["l"]]["ty"] for p in src):
+                    writes.append(bi)
+        if not cx.floor("cache refresh in %s" % label.rsplit("::", 1)[1], len(writes), 1, ck):
+            continue
+        exits = [e for e in M.exit_defs(b) if e[2] != "err"]
+        skipping = [e for e in exits if not b.dominated_by_blocks(e[0], set(writes))]
+        if skipping:
+            cx.violation(label, "refreshes-cached-catalog", "%s: %s can report success without replacing the cached catalog copy: lookups on this node keep answering from the old copy" % (
+                b.sp(skipping[0][0], skipping[0][1]), label.rsplit("::", 1)[1]), [b.sp(skipping[0][0], skipping[0][1])])
+        else:
+            cx.passed(label, "refreshes-cached-catalog", [b.sp(writes[0])])
